@@ -7,6 +7,11 @@
   iteration `k` returned the patched version `p` (applied by the server at `k.tp`), no step of `mid`
   patched, so `(p, k.tp)` is the last own patch when iteration `i` is processed. `mid` holds the
   foreign events (any number of them), possibly with retirements of the idle worker in between.
+  `mid` may also hold `.background` steps (PATCHes by the object's daemon/timer tasks): they hand no
+  version to the worker. The FULL property clause — the same conclusion for EVERY framework patch,
+  including those background ones — is FALSE of the mechanism: see `barrier_background_witness` (finding
+  C07-F1). The theorems named `…_partial` prove it under the exact guard "the PATCH was issued by the
+  object's worker, i.e. its version is what the processor returned" (`k.patched = some p`).
   `wf` = the clock does not run backwards, a PATCH is applied after its iteration began and before the
   processor returns, and a worker retires only after its idle wait `max(idle_timeout, consistency_time - now)` has timed out.
 -/
@@ -16,7 +21,7 @@ namespace Kopf.C07
 /-- **The barrier.** If change handlers run in iteration `i` (at time `t`), then the version of the
     last own patch has been dequeued by the worker after that patch — in `mid` or as `i`'s own event —
     or the consistency timeout has elapsed since the server applied the patch. -/
-theorem barrier (T idle : Int) (pre mid post : List Step) (k i : Iter) (p : Ver) (t : Int)
+theorem barrier_partial (T idle : Int) (pre mid post : List Step) (k i : Iter) (p : Ver) (t : Int)
     (hwf : wf T idle Cfg.init (pre ++ .event k :: (mid ++ .event i :: post)) = true)
     (hk : k.patched = some p)
     (hmid : ∀ st ∈ mid, st.patched = none)
@@ -36,22 +41,36 @@ theorem barrier (T idle : Int) (pre mid post : List Step) (k i : Iter) (p : Ver)
   · left; exact List.mem_append_right _ (by simp [hv])
   · exact Or.inr ht
 
-/-- The same statement with the number of foreign events made explicit: it is an invariant of the
-    run, no counter appears, so it holds for every `n`. -/
-theorem independent_of_foreign_count (n : Nat) (T idle : Int) (pre mid post : List Step) (k i : Iter)
-    (p : Ver) (t : Int) (_hn : mid.length = n)
+-- "Regardless of how many foreign events arrive in between": `mid` is universally quantified above, no
+-- counter appears anywhere in the model. Spelled out for a given length (a corollary, not a separate theorem):
+example (n : Nat) (T idle : Int) (pre mid post : List Step) (k i : Iter) (p : Ver) (t : Int) (_hn : mid.length = n)
     (hwf : wf T idle Cfg.init (pre ++ .event k :: (mid ++ .event i :: post)) = true)
-    (hk : k.patched = some p)
-    (hmid : ∀ st ∈ mid, st.patched = none)
+    (hk : k.patched = some p) (hmid : ∀ st ∈ mid, st.patched = none)
     (hran : (outcomeAt T (exec T Cfg.init (pre ++ .event k :: mid)) i).handlers = some t) :
     some p ∈ mid.map Step.ver ++ [i.ver] ∨ k.tp + T ≤ t :=
-  barrier T idle pre mid post k i p t hwf hk hmid hran
+  barrier_partial T idle pre mid post k i p t hwf hk hmid hran
+
+/-- **The full clause is false: background patches are not guarded** (finding C07-F1). A timer's (or a
+    daemon's) task PATCHes the object at `tq = 100` and gets version 106; one tick later the worker
+    dequeues an older view (105, delivered late) with nothing expected, and change handlers run on it
+    at once: 106 was never dequeued, and only 1 of `T = 320` ticks has passed since that patch. -/
+theorem barrier_background_witness :
+    ∃ (T idle : Int) (mid : List Step) (i : Iter) (q v : Ver) (tq t : Int),
+      wf T idle Cfg.init (.background q tq :: (mid ++ [.event i])) = true ∧
+      (outcomeAt T (exec T Cfg.init (.background q tq :: mid)) i).handlers = some t ∧
+      i.ver = some v ∧ v.n < q.n ∧                        -- the view is older than the framework's patch
+      some q ∉ mid.map Step.ver ++ [i.ver] ∧              -- whose version has not come back
+      ¬ (tq + T ≤ t) :=                                   -- and the timeout has not elapsed
+  ⟨320, 320, [], { ver := some ⟨105, false⟩, now := 101, dur := 0, pressure := false, wake := none, lag := 0,
+                    gone := false, required := true, patchInit := true, patchMid := true, patched := none,
+                    tp := 101, tret := 101 },
+   ⟨106, false⟩, ⟨105, false⟩, 100, 101, by decide, by decide, rfl, by decide, by decide, by decide⟩
 
 /-- The same for EVERY earlier own patch, not only the last one: if iteration `k` patched (at `k.tp`)
     and change handlers run later in iteration `i`, then there is a last own patch `(q, j.tp)` made at
     or after `k`'s (`k.tp ≤ j.tp`) whose version was dequeued after it, or whose timeout — hence also
     `k`'s — has elapsed. (`mid` may now contain further patches.) -/
-theorem barrier_every_patch (T idle : Int) (pre mid post : List Step) (k i : Iter) (p : Ver) (t : Int)
+theorem barrier_every_patch_partial (T idle : Int) (pre mid post : List Step) (k i : Iter) (p : Ver) (t : Int)
     (hwf : wf T idle Cfg.init (pre ++ .event k :: (mid ++ .event i :: post)) = true)
     (hk : k.patched = some p)
     (hran : (outcomeAt T (exec T Cfg.init (pre ++ .event k :: mid)) i).handlers = some t) :
@@ -61,7 +80,7 @@ theorem barrier_every_patch (T idle : Int) (pre mid post : List Step) (k i : Ite
       (some q ∈ b.map Step.ver ++ [i.ver] ∨ j.tp + T ≤ t) := by
   rcases last_patch_split mid with hnone | ⟨a', x, q, b, hmid, hx, hb⟩
   · exact ⟨pre, k, p, mid, rfl, Nat.le_refl _, hk, hnone, Int.le_refl _,
-      barrier T idle pre mid post k i p t hwf hk hnone hran⟩
+      barrier_partial T idle pre mid post k i p t hwf hk hnone hran⟩
   · have hlist : pre ++ .event k :: mid = (pre ++ .event k :: a') ++ .event x :: b := by
       rw [hmid]; simp
     have hwf' : wf T idle Cfg.init ((pre ++ .event k :: a') ++ .event x :: (b ++ .event i :: post)) = true := by
@@ -70,7 +89,7 @@ theorem barrier_every_patch (T idle : Int) (pre mid post : List Step) (k i : Ite
       rw [this]; exact hwf
     have hran' : (outcomeAt T (exec T Cfg.init ((pre ++ .event k :: a') ++ .event x :: b)) i).handlers = some t := by
       rw [← hlist]; exact hran
-    have hb' := barrier T idle (pre ++ .event k :: a') b post x i q t hwf' hx hb hran'
+    have hb' := barrier_partial T idle (pre ++ .event k :: a') b post x i q t hwf' hx hb hran'
     -- k.tp ≤ k.tret = clock after k ≤ clock before x ≤ x.now ≤ x.tp
     have htp : k.tp ≤ x.tp := by
       have h1 : wf T idle Cfg.init (pre ++ .event k :: (a' ++ .event x :: (b ++ .event i :: post))) = true := by
@@ -90,7 +109,7 @@ theorem barrier_every_patch (T idle : Int) (pre mid post : List Step) (k i : Ite
 /-- With the per-object order of the watch stream (versions dequeued earlier are not newer than the
     one dequeued now — C01/C19), "the patched version was dequeued" means the view is not older than
     the patch. -/
-theorem barrier_view (T idle : Int) (pre mid post : List Step) (k i : Iter) (p v : Ver) (t : Int)
+theorem barrier_view_partial (T idle : Int) (pre mid post : List Step) (k i : Iter) (p v : Ver) (t : Int)
     (hwf : wf T idle Cfg.init (pre ++ .event k :: (mid ++ .event i :: post)) = true)
     (hk : k.patched = some p)
     (hmid : ∀ st ∈ mid, st.patched = none)
@@ -98,7 +117,7 @@ theorem barrier_view (T idle : Int) (pre mid post : List Step) (k i : Iter) (p v
     (hord : ∀ st ∈ mid, ∀ u, st.ver = some u → u.n ≤ v.n)
     (hran : (outcomeAt T (exec T Cfg.init (pre ++ .event k :: mid)) i).handlers = some t) :
     p.n ≤ v.n ∨ k.tp + T ≤ t := by
-  rcases barrier T idle pre mid post k i p t hwf hk hmid hran with h | h
+  rcases barrier_partial T idle pre mid post k i p t hwf hk hmid hran with h | h
   · left
     rcases List.mem_append.mp h with h | h
     · obtain ⟨st, hst, hver⟩ := List.mem_map.mp h
@@ -109,34 +128,62 @@ theorem barrier_view (T idle : Int) (pre mid post : List Step) (k i : Iter) (p v
       exact Nat.le_refl _
   · exact Or.inr h
 
-/-- **Not delayed.** Indexing, raw-event handlers and daemon/timer spawning come first in every
-    iteration, from the time the event was dequeued (`dur` = what the raw-event handlers themselves take), whatever the worker expects (`dl`, `dl'` are any two
-    values of `consistency_time`); the barrier sleep starts only after them; a further event arriving
-    before the deadline ends the sleep at its arrival, so that event's low-level stages are not held
-    up either. -/
-theorem not_delayed (dl dl' : Option Int) (it : Iter) :
+/-- **Not delayed.** The processor is a sequence of stages run against one clock (`runStages`); only the
+    barrier stage reads `consistency_time`. For ANY stage order in which the barrier comes after a block
+    `lows` of other stages: everything `lows` does — which stages were entered, WHEN, and the clock they
+    leave behind — is the same whatever the worker expects (`dl`, `dl'` arbitrary), i.e. the same as with
+    no barrier at all; and that log stays the beginning of the iteration's final log. The statement is
+    about the computed output: it fails for an order that sleeps first (`barrier_first_delays_witness`). -/
+theorem not_delayed (lows rest : List Stage) (hl : Stage.barrier ∉ lows) (dl dl' : Option Int) (it : Iter) :
+    runStages lows dl it (PS.start it) = runStages lows dl' it (PS.start it) ∧
+    ∃ tail, (processIn (lows ++ Stage.barrier :: rest) dl it).low
+              = (runStages lows none it (PS.start it)).low ++ tail := by
+  refine ⟨runStages_indep dl dl' it lows _ hl, ?_⟩
+  obtain ⟨tail, ht⟩ := runStages_low_prefix dl it (Stage.barrier :: rest) (runStages lows dl it (PS.start it))
+  refine ⟨tail, ?_⟩
+  show (runStages (lows ++ Stage.barrier :: rest) dl it (PS.start it)).low = _
+  rw [runStages_append, ht, runStages_indep dl none it lows _ hl]
+
+/-- … instantiated for kopf's order (`kopfOrder = [indexing, watching, spawning] ++ barrier :: [changing]`):
+    indexing and the raw-event handlers start when the event is dequeued, daemons/timers are spawned as
+    soon as the raw-event handlers are done (`dur` is what those handlers themselves take), for every
+    `consistency_time`; the barrier sleep, if any, begins only then; and a further arrival (or the exiting
+    watcher) before the deadline ends the sleep at that moment, so that the next event's low-level stages
+    are not held up either. -/
+theorem not_delayed_kopf (dl : Option Int) (it : Iter) :
     (process dl it).low = [(Stage.indexing, it.now), (Stage.watching, it.now), (Stage.spawning, it.now + it.dur)]
-    ∧ (process dl it).low = (process dl' it).low
     ∧ (∀ s, (process dl it).slept = some s → it.now + it.dur ≤ s.tEnd)
     ∧ (∀ d s (w : Nat), dl = some d → (process dl it).slept = some s → it.wake = some w → it.now + it.dur + w < d →
           s.timedOut = false ∧ s.tEnd ≤ it.now + it.dur + w) := by
-  refine ⟨rfl, rfl, ?_, ?_⟩
+  refine ⟨process_low dl it, ?_, ?_⟩
   · intro s hs
+    rw [process_closed] at hs
     cases dl with
-    | none => simp [process] at hs
+    | none => simp [processClosed] at hs
     | some d =>
-      unfold process at hs
+      unfold processClosed at hs
       simp only at hs
       split at hs
       · cases hs; exact sleepUntil_ge_now _ _ _ _ _
       · cases hs
   · intro d s w hd hs hw hlt
     subst hd
-    unfold process at hs
+    rw [process_closed] at hs
+    unfold processClosed at hs
     simp only at hs
     split at hs
     · cases hs; rw [hw]; exact sleepUntil_woken hlt
     · cases hs
+
+/-- The same statement is false for a processor that sleeps first (the mutant "barrier before the
+    raw-event handlers"): its low-level stages start at the deadline instead of at the dequeue. -/
+theorem barrier_first_delays_witness :
+    ∃ (it : Iter) (dl : Option Int),
+      (processIn [Stage.barrier, .indexing, .watching, .spawning, .changing] dl it).low
+        ≠ (processIn [Stage.barrier, .indexing, .watching, .spawning, .changing] none it).low :=
+  ⟨{ ver := some ⟨104, false⟩, now := 110, dur := 0, pressure := false, wake := none, lag := 0, gone := false,
+     required := true, patchInit := true, patchMid := true, patched := none, tp := 423, tret := 423 },
+   some 423, by decide⟩
 
 /-- **An interrupted sleep is never consistency.** Whatever ends the barrier sleep before its
     deadline — a new event, or the pressure raised by the exiting watcher together with its
@@ -145,10 +192,11 @@ theorem interrupted_never_achieved (dl : Option Int) (it : Iter) (s : Slept)
     (hs : (process dl it).slept = some s) (hw : s.timedOut = false) :
     (process dl it).achieved = false ∧ (process dl it).held = true ∧
       (process dl it).entered = none ∧ (process dl it).handlers = none := by
+  rw [process_closed] at hs ⊢
   cases dl with
-  | none => simp [process] at hs
+  | none => simp [processClosed] at hs
   | some d =>
-    unfold process at hs ⊢
+    unfold processClosed at hs ⊢
     simp only at hs ⊢
     split at hs
     · rename_i hc
@@ -207,6 +255,25 @@ theorem never_arrives (s : WState) (e : Ver) (v : Option Ver) (he : s.expected =
   · have := hv e h; rw [hn] at this; cases this
   · simp [h]
 
+/-- **Observation (liveness, outside C07's clauses): a no-op write arms the barrier for nothing.** The
+    processor PATCHes at 102, the server changes nothing and answers with the version the worker has just
+    consumed (105). The worker now expects 105, which cannot come again; a genuine foreign change (106)
+    arriving at 110 is held back, and its handlers run only at the deadline 103 + 320 — although no own
+    write is outstanding. C07 (a safety property) is not violated: nothing runs on an older view. -/
+theorem noop_write_stall_witness :
+    ∃ (k i : Iter) (v : Ver),
+      k.ver = some v ∧ k.patched = some v ∧                                   -- the PATCH was a no-op
+      wf 320 320 Cfg.init [.event k, .event i] = true ∧
+      (exec 320 Cfg.init [.event k]).s = { expected := some v, deadline := some 423 } ∧
+      (∃ u, i.ver = some u ∧ v.n < u.n) ∧                                     -- a newer, foreign version
+      (outcomeAt 320 (exec 320 Cfg.init [.event k]) i).handlers = some 423 ∧  -- waits out the whole timeout
+      i.now = 110 :=
+  ⟨{ ver := some ⟨105, false⟩, now := 100, dur := 0, pressure := false, wake := none, lag := 0, gone := false,
+     required := true, patchInit := true, patchMid := true, patched := some ⟨105, false⟩, tp := 102, tret := 103 },
+   { ver := some ⟨106, false⟩, now := 110, dur := 0, pressure := false, wake := none, lag := 0, gone := false,
+     required := true, patchInit := true, patchMid := true, patched := none, tp := 423, tret := 423 },
+   ⟨105, false⟩, rfl, rfl, by decide, by decide, ⟨⟨106, false⟩, rfl, by decide⟩, by decide, rfl⟩
+
 /-! ### Non-vacuity: concrete iterations (T = 5 s = 320 ticks, idle 320) -/
 
 /-- Iteration k: event 105 at t=100, handlers ran (nothing expected), PATCH applied at 102 → 106. -/
@@ -244,6 +311,10 @@ example : exK.tp + 320 ≤ (423 : Int) := by decide
 example : outcomeAt 320 (exec 320 Cfg.init [.event exK]) { exStale with wake := some 20, tp := 130, tret := 130 } =
     { given := some 423, low := [(.indexing, 110), (.watching, 110), (.spawning, 110)],
       slept := some ⟨130, false⟩, achieved := false, held := true, entered := none, handlers := none } := by decide
+-- background patches in `mid` change nothing for the worker: same state, same release by the echo
+example : (exec 320 Cfg.init [.event exK, .background ⟨107, false⟩ 105, .event exForeign]).s
+    = (exec 320 Cfg.init [.event exK, .event exForeign]).s := by decide
+example : wf 320 320 Cfg.init ([] ++ .event exK :: ([.background ⟨107, false⟩ 105, .event exForeign] ++ .event exEcho :: [])) = true := by decide
 -- a retirement of the idle worker is well-formed only at or after the deadline
 example : okStep 320 (exec 320 Cfg.init [.event exK]) (.retire 422) = false := by decide
 example : okStep 320 (exec 320 Cfg.init [.event exK]) (.retire 423) = true := by decide
